@@ -99,13 +99,13 @@ CHECKS = {
    design='4/C18'),
  'C04': dict(
    technique='Coq theorems for the arithmetic/logic group (mirror of the lifter tied to the regenerated IR by syntactic identity, kernel-checked by reflection) + evaluation of the whole integer core with the extracted Coq denotation against an SDM reference',
-   text=("Theorems (props/C04.v, closed): (tie) every add/adc/sub/sbb/cmp/and/or/xor/test form of the lifted dump regenerated from /repo (>2000 forms: every operand shape and width) with operands of equal width is, node for node, "
+   text=("Theorems (props/C04.v, closed): (tie) every add/adc/sub/sbb/cmp/and/or/xor/test form (>2000) with operands of equal width and every inc/dec/neg form (>150) of the lifted dump regenerated from /repo — every operand shape and width — is, node for node, "
          "the mirror Sem.v applied to its own operands; (meaning) for ALL operand expressions of equal width n in {8,16,32}, all valuations of registers/flags/memory and all operator interpretations: the value is the n-bit sum/difference/bitwise result "
-         "(carry-in for adc/sbb), cf is the carry/borrow out, of the signed overflow, zf/sf/pf those of the result; the XOR-based carry identities are proved for every width and value. af is refuted (known finding). "
-         "The rest of the integer core (inc/dec/neg/not, shifts, rotates, double shifts, mul/div, bit ops, extensions, flag ops, setcc/cmovcc, xchg/xadd/cmpxchg, lea, stack, string, control transfer) is NOT a theorem: "
+         "(carry-in for adc/sbb), cf is the carry/borrow out, of the signed overflow, zf/sf/pf those of the result; inc/dec/neg likewise (cf of neg = operand <> 0); an assignment to a sub-register replaces exactly its bits of the register (write-back through ExprAff's slice rewriting, bit-level theorem); the XOR-based carry identities are proved for every width and value. af is refuted (known finding). "
+         "The rest of the integer core (not, mov, shifts, rotates, double shifts, mul/div, bit ops, extensions, flag ops, setcc/cmovcc, xchg/xadd/cmpxchg, lea, stack, string, control transfer) is NOT a theorem: "
          "the regenerated IR of every catalogue form (+ an addressing-mode sweep over every ModRM/SIB byte) is evaluated by the extracted Expr.eval on 6 (quick) / 40 (thorough) boundary x random states and compared with harness/x86ref.py "
          "(registers, defined flags, written bytes, eip). Deviations on the unchanged tree are listed per (mnemonic, operand size, output, shift-count class)."),
-   note=TB + "Sem.v is a hand mirror of ia32_sem.py's flag helpers and 9 semantic functions; its tie to the code is the kernel-checked identity with the regenerated IR (SemFacts.v), re-proved on every run. The destination write-back through ExprAff's slice rewriting (mk_aff) is mirrored and tied but its bit-level meaning is not yet a theorem. x86ref.py is a hand-written specification, reviewed against the SDM and validated against the real processor on every run (harness/cpucheck.py: 262 register forms, 0 disagreements on >100k executed states; testing, not proof).",
+   note=TB + "Sem.v is a hand mirror of ia32_sem.py's flag helpers and 12 semantic functions; its tie to the code is the kernel-checked identity with the regenerated IR (SemFacts.v), re-proved on every run. x86ref.py is a hand-written specification, reviewed against the SDM and validated against the real processor on every run (harness/cpucheck.py: 262 register forms, 0 disagreements on >100k executed states; testing, not proof).",
    design='4/C04', category='other'),
  'C08': dict(
    technique='Coq theorem (coincidence lifted to assignment lists: nothing outside get_r can influence any value of ANY lifted list) + dependency and write probing of the implementation-reported sets against the SDM reference and an SSE operand-role table',
